@@ -4,7 +4,12 @@
  * which is exactly the address-reuse situation the tracer's untrack-before-free ordering must survive).
  */
 #include <stddef.h>
-#include "vsx.h"
+#ifdef VSX_FREE
+#    define GALLOC_PASSTHROUGH 1
+#    include "vsx_free.h"
+#else
+#    include "vsx.h"
+#endif
 #include "galloc.h"
 #include <aws/common/allocator.h>
 
